@@ -34,7 +34,7 @@ def variant_case(args):
         shutil.rmtree(root, ignore_errors=True)
         ev.pop("stubs", None)
         ev["case"]["name"] = name
-        cls = [{"key": kk, "bytes": v[0], "json": v[1], "which": v[2]} for kk, v in sorted(b["classes"].items())]
+        cls = [{"key": kk, "bytes": v[0], "json": v[1], "which": v[2], "bytes2": v[3], "json2": v[4], "which2": v[5]} for kk, v in sorted(b["classes"].items())]
         # "field": the dataclass field the error message names (Field(name='float', ...)), if any -- transported for the KF predicate
         errs = [{"key": e[0], "msg": e[1][:160], "field": (re.search(r"Field\(name='(\w+)'", e[1]) or [None, ""])[1],
                  "placeholder": "'Placeholder' object" in e[1]} for e in b["errors"]]
@@ -59,6 +59,11 @@ def feature_programs():
         "optional_msg_only": "message V { int32 x = 1; } message M { optional V o = 1; repeated V r = 2; }",
         "wrapper_only": 'import "google/protobuf/wrappers.proto";\nmessage M { google.protobuf.Int64Value w = 1; }',
         "timestamp_only": 'import "google/protobuf/timestamp.proto";\nimport "google/protobuf/duration.proto";\nmessage M { google.protobuf.Timestamp t = 1; google.protobuf.Duration d = 2; }',
+        "optional_timestamp_only": 'import "google/protobuf/timestamp.proto";\nmessage M { optional google.protobuf.Timestamp t = 1; }',
+        "optional_duration_only": 'import "google/protobuf/duration.proto";\nmessage M { optional google.protobuf.Duration d = 1; }',
+        "oneof_timestamp_only": 'import "google/protobuf/timestamp.proto";\nmessage M { oneof g { google.protobuf.Timestamp t = 1; string s = 2; } }',
+        "optional_enum_named_none": "enum AllOrNone { ALL_OR_NONE_UNSPECIFIED = 0; ALL_OR_NONE_ALL = 1; } message M { optional AllOrNone a = 1; oneof g { AllOrNone b = 2; int32 c = 3; } }",
+        "builtin_named_after_use": "message M { repeated string names = 1; optional int32 n = 2; string str = 3; int32 int = 4; }",
         "oneof_only": "message V { int32 x = 1; } enum E { E_Z = 0; E_N = -1; } message M { oneof g { int32 a = 1; V v = 2; E e = 3; string s = 4; } }",
         "enum_only": "enum E { E_Z = 0; E_A = 1; } message M { E e = 1; }",
         "scalars_only": "message M { int32 a = 1; string b = 2; bytes c = 3; double d = 4; bool e = 5; }",
